@@ -6,7 +6,8 @@ Import ListNotations.
 Open Scope string_scope.
 
 (* NotPresentDisposition *)
-Lemma not_present_table : forall op, assoc (mop_go op) go_not_present = Some (bool_go (disposition op)).
+(* (how the cases are grouped is not prescribed: an operator's answer is its own clause's or the default clause's) *)
+Lemma not_present_table : forall op, table_or_default (mop_go op) go_not_present = Some (bool_go (disposition op)).
 Proof. intros []; reflexivity. Qed.
 Lemma not_present_default : assoc "default" go_not_present = Some "false".
 Proof. reflexivity. Qed.
